@@ -51,6 +51,15 @@ def run(rep, props, replay=None):
             mon.append("pointwise mean of centred data is not zero")
         if np.max(np.abs(np.asarray(fd.dense(x, cen).center().values) - cen)) > 1e-10 * sc:
             mon.append("centering twice changes the data")
+        # every operation returns curves on the SAME sampling points (with either setting of use_argvals_stand)
+        for lab, res in (("center", d.center()), ("normalize", d.normalize() if np.all(d.norm() > 1e-8) else d),
+                         ("standardize", d.standardize()), ("rescale", d.rescale()[0]),
+                         ("rescale(use_argvals_stand=True)", d.rescale(use_argvals_stand=True)[0]),
+                         ("rescale(weights=2)", d.rescale(weights=2.0)[0])):
+            ra = np.asarray(res.argvals["input_dim_0"], float)
+            if ra.shape != x.shape or not np.array_equal(ra, x):
+                mon.append(f"{lab} returns curves on other sampling points ([{ra[0]:.4g} .. {ra[-1]:.4g}] instead of "
+                           f"[{x[0]:.4g} .. {x[-1]:.4g}])")
         # history: centering is a function of the curves the object holds now, not of what was computed on it before
         from FDApy.representation.values import DenseValues
         if m >= 4:
